@@ -1,7 +1,9 @@
 import EmsModel.Core.GeomProto
 import EmsModel.Core.GeomCover
 import EmsModel.Core.ConvReads
+import EmsModel.Core.ConvOpen
 import EmsModel.Core.NpProto
+import EmsModel.Core.UgridSrcProto
 /-! Line-protocol driver for C06 (polygons, mask, bounds faithful to the coordinates).
 See `Core/GeomProto.lean` for the operations on the comprehension models (`polys`, `centres`, `valid`, `pip`,
 `cf1dgeom`), `Core/GeomCover.lean` for `cf1dcover` (the point set of the overall geometry of a CF 1-D grid on a
@@ -10,6 +12,14 @@ cached accessors in the given order) and `Core/NpProto.lean` for the `pipe …` 
 generated from the source (`Gen/Pipelines.lean`). -/
 open Ems Ems.Proto
 def step (line : String) : String :=
+  -- `polys-src ugrid …` (Core/UgridSrcProto.lean): the program generated from the source of `UGrid._make_polygons` (B5)
+  match Ems.UgridSrcProto.step? (words line) with
+  | some r => r
+  | none =>
+  -- `opens …` (Core/ConvOpen.lean): convention objects constructed one after the other, some configured through their constructor
+  match Ems.GeomProto.opensStep? (words line) with
+  | some r => r
+  | none =>
   match Ems.NpProto.step? (words line) with
   | some r => r
   | none =>
